@@ -222,6 +222,27 @@ def follow_delegate(f: FuncInfo) -> FuncInfo:
     return f
 
 
+def first_param(f: FuncInfo) -> str | None:
+    a = [x.arg for x in f.node.args.posonlyargs + f.node.args.args]
+    if a and a[0] in ("self", "cls"):
+        a = a[1:]
+    return a[0] if a else None
+
+
+def norm_node(expr: ast.AST, f: FuncInfo) -> str:
+    """norm(expr) with the function's first (non-self) parameter spelled `node`: texts that do not depend on how a visitor
+    names its node parameter."""
+    import copy
+    par = first_param(f)
+    if par is None or par == "node":
+        return norm(expr)
+    e = copy.deepcopy(expr)
+    for n in ast.walk(e):
+        if isinstance(n, ast.Name) and n.id == par:
+            n.id = "node"
+    return norm(e)
+
+
 def canon_text(expr: ast.AST, f: FuncInfo, depth: int = 3) -> str:
     """Text of expr with every single-assignment local replaced by its defining expression (bounded): a key that does not
     change when locals are renamed."""
